@@ -85,16 +85,25 @@ def spec_eval(cond, atom_val):
     raise ValueError(cond)
 
 
-def inline_calls(cond, preds):
-    """the generator's own capture-free, simultaneous inlining of predicate calls (the C13 spec)"""
+def inline_calls(cond, preds, alias_kinds=None):
+    """the generator's own capture-free, simultaneous inlining of predicate calls (the C13 spec). A call resolves
+    to the declaration with that name whose parameter kinds are the kinds of the argument aliases (overloads)."""
     k = cond[0]
     if k == "call":
-        p = [x for x in preds if x.name == cond[1]][0]
+        cands = [x for x in preds if x.name == cond[1] and len(x.params) == len(cond[2])]
+        if alias_kinds is not None:
+            exact = [x for x in cands if [t for t, _ in x.params] == [alias_kinds.get(a) for a in cond[2]]]
+            cands = exact or cands
+        p = cands[0] if cands else [x for x in preds if x.name == cond[1]][0]
         ren = dict((formal, actual) for (_, formal), actual in zip(p.params, cond[2]))
-        return ("paren", rename(inline_calls(p.body, preds), ren))
+        return ("paren", rename(inline_calls(p.body, preds, None), ren))
     if k == "atom":
         return cond
-    return tuple([k] + [inline_calls(c, preds) for c in cond[1:]])
+    return tuple([k] + [inline_calls(c, preds, alias_kinds) for c in cond[1:]])
+
+
+def alias_kinds(q):
+    return {a: k for k, a in q.from_items}
 
 
 def rename(cond, ren):
@@ -164,7 +173,7 @@ def engine_case(proj, d, text, q=None):
     want = list(atoms) + ([expanded] if expanded else [])
     spec_atoms = []
     if q is not None and q.cond is not None:
-        inl = inline_calls(q.cond, q.preds)
+        inl = inline_calls(q.cond, q.preds, alias_kinds(q))
         spec_atoms = atoms_of(inl, [])
         for a in spec_atoms:
             if a not in want:
@@ -200,7 +209,7 @@ def engine_case(proj, d, text, q=None):
         if q.cond is None:
             out["oracle"] = sorted(tuple(t) for t in tuples)
         else:
-            inl = inline_calls(q.cond, q.preds)
+            inl = inline_calls(q.cond, q.preds, alias_kinds(q))
             if any("c" in tables[a] or "n" in tables[a] or "p" in tables[a] for a in spec_atoms):
                 out["oracle"] = None
                 out["info"]["oracle_skipped"] = "an atom of the generated condition does not compile to a boolean"
